@@ -25,8 +25,18 @@ Theorem C16_roundtrip : forall d db cells,
   gen_deser_value_by_name d db cells = Ok (map (back_value (map fst db)) (vd_fields d)).
 Proof. exact roundtrip_value_by_name. Qed.
 
-(* extra, missing, null and renamed fields are accepted / rejected exactly as documented *)
+(* extra, missing, null and renamed fields are accepted / rejected exactly as documented.  The
+   documentation says nothing about a UDT type that lists a field name twice, so the property
+   theorem is stated for DB lists without duplicate names; [C16_ser_value_any_db] records that the
+   table [doc_ser_value_by_name] was extended to such lists by following the code (the value is
+   written at every occurrence) - that extension is a fact about the model, not a documented
+   behaviour, and is not counted as part of the property. *)
 Theorem C16_excess_missing_ser_value : forall d db,
+  NoDup (map vf_name (nonskipped (vd_fields d))) -> NoDup (map fst db) ->
+  outcome_of (gen_ser_value_by_name d db) = doc_ser_value_by_name d db.
+Proof. intros d db H _. exact (ser_value_by_name_doc d db H). Qed.
+
+Lemma C16_ser_value_any_db : forall d db,
   NoDup (map vf_name (nonskipped (vd_fields d))) ->
   outcome_of (gen_ser_value_by_name d db) = doc_ser_value_by_name d db.
 Proof. exact ser_value_by_name_doc. Qed.
@@ -41,12 +51,12 @@ Theorem C16_excess_missing_deser_value : forall d db cells,
   NoDup (map vf_name (nonskipped (vd_fields d))) ->
   doc_typeck_value_by_name d db = true ->
   outcome_of (gen_deser_value_by_name d db cells) =
-    match all_some (map (fun f => doc_field_value f (udt_items db cells)) (vd_fields d)) with
+    match all_some (map (fun f => doc_field_value f (spec_items db cells)) (vd_fields d)) with
     | Some vs => Accept vs
     | None => Reject
     end /\
   gen_deser_value_by_name d db cells <> Err EPanic.
-Proof. exact deser_value_by_name_doc. Qed.
+Proof. exact deser_value_by_name_spec. Qed.
 
 (* ---- rows (SerializeRow with flatten, DeserializeRow) ---------------------------------- *)
 
@@ -88,7 +98,7 @@ Theorem C16_excess_missing_deser_row : forall ls cols cells,
     | None => Reject
     end /\
   gen_deser_row_by_name ls cols cells <> Err EPanic.
-Proof. exact deser_row_by_name_doc. Qed.
+Proof. exact deser_row_by_name_spec. Qed.
 
 (* ---- enforce_order ---------------------------------------------------------------------- *)
 
@@ -119,12 +129,12 @@ Proof. exact ser_row_ordered_doc. Qed.
 Theorem C16_ordered_deser_value : forall d db cells, vordered_plain d = true ->
   NoDup (map vf_name (nonskipped (vd_fields d))) -> doc_typeck_value_ordered d db = true ->
   outcome_of (gen_deser_value_ordered d db cells) =
-    match all_some (map (fun f => doc_field_value f (udt_items db cells)) (vd_fields d)) with
+    match all_some (map (fun f => doc_field_value f (spec_items db cells)) (vd_fields d)) with
     | Some vs => Accept vs
     | None => Reject
     end /\
   gen_deser_value_ordered d db cells <> Err EPanic.
-Proof. exact deser_value_ordered_doc. Qed.
+Proof. exact deser_value_ordered_spec. Qed.
 
 Theorem C16_ordered_deser_row : forall ls cols cells,
   NoDup (map rl_name (filter (fun f => negb (rl_skip f)) ls)) ->
@@ -135,7 +145,7 @@ Theorem C16_ordered_deser_row : forall ls cols cells,
     | None => Reject
     end /\
   gen_deser_row_ordered false ls cols cells <> Err EPanic.
-Proof. exact deser_row_ordered_doc. Qed.
+Proof. exact deser_row_ordered_spec. Qed.
 
 (* enforce_order WITH allow_missing fields (names checked): whatever is accepted is the values of a
    subsequence of the struct's fields that contains every field not marked allow_missing, matched
@@ -148,6 +158,65 @@ Theorem C16_ordered_allow_missing_sound : forall d db cells, vd_snc d = false ->
     db = p ++ rest /\ map fst p = map vf_name used /\ cells = map vf_val used /\
     (vd_forbid d = true -> rest = []).
 Proof. exact ser_value_ordered_am_sound. Qed.
+
+(* enforce_order + allow_missing (names checked), full characterisation: the bound fields are the
+   LONGEST selection of the declared fields that contains every non-allow_missing field and whose
+   names are a prefix of the UDT's field names ([doc_ordered_used], found by exhaustive search over
+   all sub-sequences); accept / reject / result are then decided on that selection.  Covers the
+   plain case as well. *)
+Theorem C16_ordered_am_ser_value : forall d db, vd_snc d = false ->
+  NoDup (map vf_name (nonskipped (vd_fields d))) ->
+  outcome_of (gen_ser_value_ordered d db) = doc_ser_value_ordered_am d db.
+Proof. exact ser_value_ordered_am_doc. Qed.
+
+Theorem C16_ordered_am_typeck_value : forall d db, vd_snc d = false ->
+  NoDup (map vf_name (nonskipped (vd_fields d))) ->
+  (gen_typeck_value_ordered d db = Ok tt <-> doc_typeck_value_ordered_am d db = true).
+Proof. exact typeck_value_ordered_am_doc. Qed.
+
+Theorem C16_ordered_am_deser_value : forall d db cells, vd_snc d = false ->
+  NoDup (map vf_name (nonskipped (vd_fields d))) -> doc_typeck_value_ordered_am d db = true ->
+  outcome_of (gen_deser_value_ordered d db cells) = doc_deser_value_ordered_am d db cells /\
+  gen_deser_value_ordered d db cells <> Err EPanic.
+Proof. exact deser_value_ordered_am_doc. Qed.
+
+(* skip_name_checks: positional binding, types only *)
+Theorem C16_snc_ser_value : forall d db, vd_snc d = true ->
+  outcome_of (gen_ser_value_ordered d db) = doc_ser_value_snc d db.
+Proof. exact ser_value_snc_doc. Qed.
+
+Theorem C16_snc_typeck_value : forall d db, vd_snc d = true ->
+  (gen_typeck_value_ordered d db = Ok tt <-> doc_typeck_value_snc d db = true).
+Proof. exact typeck_value_snc_doc. Qed.
+
+Theorem C16_snc_deser_value : forall d db cells, vd_snc d = true -> doc_typeck_value_snc d db = true ->
+  outcome_of (gen_deser_value_ordered d db cells) =
+    match all_some (doc_positional (vd_fields d) (spec_items db cells)) with
+    | Some vs => Accept vs
+    | None => Reject
+    end /\
+  gen_deser_value_ordered d db cells <> Err EPanic.
+Proof. exact deser_value_snc_doc. Qed.
+
+(* rows, enforce_order, EVERY descriptor (any mix of skip_name_checks in the flatten tree) *)
+Theorem C16_ordered_gen_ser_row : forall d cols,
+  outcome_of (gen_ser_row_ordered d cols) = doc_ser_row_ordered_gen d cols.
+Proof. exact ser_row_ordered_gen_doc. Qed.
+
+Theorem C16_snc_typeck_row : forall ls cols,
+  (gen_typeck_row_ordered true ls cols = Ok tt <-> doc_typeck_row_snc ls cols = true) /\
+  gen_typeck_row_ordered true ls cols <> Err EPanic.
+Proof. exact typeck_row_snc_doc. Qed.
+
+Theorem C16_snc_deser_row : forall ls cols cells, List.length cells = List.length cols ->
+  doc_typeck_row_snc ls cols = true ->
+  outcome_of (gen_deser_row_ordered true ls cols cells) =
+    match all_some (doc_row_positional ls (combine cols cells)) with
+    | Some vs => Accept vs
+    | None => Reject
+    end /\
+  gen_deser_row_ordered true ls cols cells <> Err EPanic.
+Proof. exact deser_row_snc_doc. Qed.
 
 (* round trip in the ordered flavor, for EVERY descriptor (allow_missing and skip_name_checks
    included): every field comes back as its value, or as Default if it is skipped or was an
@@ -236,6 +305,107 @@ Example C16_ex_ordered : vordered_plain ex_o = true /\ vvals_ok ex_o = true /\
   gen_ser_value_ordered ex_o [("a", DInt); ("b", DText)]%string = Ok [Some [0;0;0;7]; Some [97]].
 Proof. repeat split; vm_compute; reflexivity. Qed.
 
+(* ---- anchors for the specification functions and the driver's predicates: accepting AND rejecting
+   inputs, so that a definition weakened later breaks a pinned Example ---------------------------- *)
+Example C16_ex_doc_null_rule :
+  doc_null_rule true RInt None = Some (Some [0;0;0;0]) /\ doc_null_rule false RInt None = None /\
+  doc_null_rule false ROptInt None = Some None /\ doc_null_rule true RText (Some [97]) = Some (Some [97]) /\
+  doc_null_rule true RInt (Some [1;2;3]) = None /\
+  spec_items [("a", DInt); ("b", DText)]%string [Some [7]] = [(("a", DInt), Some [7]); (("b", DText), None)]%string /\
+  spec_items [("a", DInt)]%string [Some [7]; Some [8]] = [(("a", DInt), Some [7])]%string.
+Proof. repeat split; vm_compute; reflexivity. Qed.
+
+Example C16_ex_doc_by_name_rejects :
+  doc_typeck_value_by_name ex_d [("x", DText); ("c", DInt)]%string = true /\
+  doc_typeck_value_by_name ex_d [("x", DText); ("c", DInt); ("x", DText)]%string = false /\
+  doc_typeck_value_by_name ex_d [("x", DInt); ("c", DInt)]%string = false /\
+  doc_typeck_value_by_name ex_d [("c", DInt); ("a", DInt)]%string = false /\
+  doc_typeck_value_by_name ex_d [("x", DText); ("zz", DInt); ("c", DInt)]%string = true /\
+  doc_ser_value_by_name ex_d [("x", DBigInt)]%string = Reject /\
+  doc_deser_value_by_name ex_d [("x", DText); ("c", DInt)]%string [None; None] = Reject /\
+  doc_deser_value_by_name ex_d [("c", DInt); ("x", DText)]%string [None; Some [98]]
+    = Accept [Some [0;0;0;0]; Some [98]; Some [0;0;0;0]; None] /\
+  outcome_agrees (Some [None]) (Accept [Some []]) = false /\ outcome_agrees (Some [None]) Reject = false /\
+  outcome_agrees None (Accept [None]) = false /\ outcome_agrees None Reject = true /\
+  outcome_agrees (Some [None; Some [1]]) (Accept [None; Some [1]]) = true.
+Proof. repeat split; vm_compute; reflexivity. Qed.
+
+Definition ex_x : vdesc :=
+  {| vd_ordered := false; vd_forbid := true; vd_snc := false;
+     vd_fields := [ ex_f "a" None false false false RInt (Some [0;0;0;7]) ] |}%string.
+Example C16_ex_forbid_and_validate :
+  doc_ser_value_by_name ex_x [("a", DInt); ("zz", DInt)]%string = Reject /\
+  doc_ser_value_by_name ex_x [("a", DInt)]%string = Accept [Some [0;0;0;7]] /\
+  doc_typeck_value_by_name ex_x [("zz", DInt); ("a", DInt)]%string = false /\
+  vdesc_valid ex_x = true /\
+  vdesc_valid {| vd_ordered := false; vd_forbid := false; vd_snc := true; vd_fields := vd_fields ex_x |} = false /\
+  vdesc_valid {| vd_ordered := false; vd_forbid := false; vd_snc := false;
+                 vd_fields := vd_fields ex_x ++ vd_fields ex_x |} = false /\
+  vvals_ok {| vd_ordered := false; vd_forbid := false; vd_snc := false;
+              vd_fields := [ ex_f "a" None false false false RInt None ]%string |} = false.
+Proof. repeat split; vm_compute; reflexivity. Qed.
+
+(* enforce_order + allow_missing: the longest admissible selection *)
+Definition ex_am : vdesc :=
+  {| vd_ordered := true; vd_forbid := false; vd_snc := false;
+     vd_fields := [ ex_f "a" None false true false RInt (Some [0;0;0;7]);
+                    ex_f "b" None false false false RText (Some [98]) ] |}%string.
+Example C16_ex_ordered_am :
+  option_map (map vf_ident) (doc_ordered_used (vd_fields ex_am) [("a", DInt); ("b", DText)]%string) = Some ["a"; "b"]%string /\
+  option_map (map vf_ident) (doc_ordered_used (vd_fields ex_am) [("b", DText); ("a", DInt)]%string) = Some ["b"]%string /\
+  doc_ordered_used (vd_fields ex_am) [("a", DInt)]%string = None /\
+  doc_typeck_value_ordered_am ex_am [("b", DText); ("a", DInt)]%string = true /\
+  doc_typeck_value_ordered_am ex_am [("a", DText); ("b", DText)]%string = false /\
+  doc_typeck_value_ordered_am ex_am [("zz", DInt); ("b", DText)]%string = false /\
+  doc_ser_value_ordered_am ex_am [("b", DText); ("a", DInt)]%string = Accept [Some [98]] /\
+  gen_ser_value_ordered ex_am [("b", DText); ("a", DInt)]%string = Ok [Some [98]] /\
+  doc_deser_value_ordered_am ex_am [("b", DText); ("a", DInt)]%string [Some [99]; Some [0;0;0;1]]
+    = Accept [Some [0;0;0;0]; Some [99]].
+Proof. repeat split; vm_compute; reflexivity. Qed.
+
+(* skip_name_checks: positional, types only *)
+Definition ex_snc : vdesc :=
+  {| vd_ordered := true; vd_forbid := true; vd_snc := true;
+     vd_fields := [ ex_f "a" None false false false RInt (Some [0;0;0;7]);
+                    ex_f "b" None false true false RText (Some [98]) ] |}%string.
+Example C16_ex_snc :
+  doc_typeck_value_snc ex_snc [("x", DInt); ("y", DText)]%string = true /\
+  doc_typeck_value_snc ex_snc [("x", DInt)]%string = true /\
+  doc_typeck_value_snc ex_snc [("x", DText)]%string = false /\
+  doc_typeck_value_snc ex_snc []%string = false /\
+  doc_typeck_value_snc ex_snc [("x", DInt); ("y", DText); ("z", DInt)]%string = false /\
+  doc_ser_value_snc ex_snc [("x", DInt); ("y", DText)]%string = Accept [Some [0;0;0;7]; Some [98]] /\
+  doc_ser_value_snc ex_snc [("x", DText)]%string = Reject /\
+  doc_deser_value_snc ex_snc [("x", DInt)]%string [Some [0;0;0;1]] = Accept [Some [0;0;0;1]; Some []].
+Proof. repeat split; vm_compute; reflexivity. Qed.
+
+(* rows: rejecting inputs of the documented tables *)
+Definition ex_ro : rdesc :=
+  {| rd_ordered := true; rd_snc := false;
+     rd_fields := [ RLeaf (ex_l "a" None false false RInt (Some [0;0;0;1]));
+                    RFlat false true [ RLeaf (ex_l "b" None false false RText (Some [98])) ] ] |}%string.
+Example C16_ex_rows_reject :
+  doc_ser_row_by_name ex_r [("c", DInt); ("a", DInt)]%string = Reject /\
+  doc_ser_row_by_name ex_r [("c", DInt); ("a", DInt); ("y", DText); ("zz", DInt)]%string = Reject /\
+  doc_ser_row_by_name ex_r [("c", DInt); ("a", DText); ("y", DText)]%string = Reject /\
+  doc_ser_row_ordered_gen ex_ro [("a", DInt); ("q", DText)]%string = Accept [Some [0;0;0;1]; Some [98]] /\
+  doc_ser_row_ordered_gen ex_ro [("q", DInt); ("b", DText)]%string = Reject /\
+  doc_ser_row_ordered_gen ex_ro [("a", DInt)]%string = Reject /\
+  doc_ser_row_ordered_gen ex_ro [("a", DInt); ("b", DText); ("c", DInt)]%string = Reject /\
+  doc_typeck_row_by_name [ex_l "a" None false false RInt None] [("a", DInt); ("a", DInt)]%string = false /\
+  doc_typeck_row_by_name [ex_l "a" None false false RInt None] [("a", DInt); ("z", DInt)]%string = false /\
+  doc_typeck_row_by_name [ex_l "a" None false false RInt None] [("a", DInt)]%string = true /\
+  doc_typeck_row_ordered [ex_l "a" None false false RInt None; ex_l "b" None false false RText None]
+    [("b", DText); ("a", DInt)]%string = false /\
+  doc_typeck_row_snc [ex_l "a" None false false RInt None] [("z", DInt)]%string = true /\
+  doc_typeck_row_snc [ex_l "a" None false false RInt None] [("a", DText)]%string = false /\
+  doc_deser_row_by_name [ex_l "a" None false false RInt None] [("a", DInt)]%string [None] = Reject /\
+  doc_deser_row_by_name [ex_l "a" None false true RInt None] [("a", DInt)]%string [None] = Accept [Some [0;0;0;0]] /\
+  rdesc_wf {| rd_ordered := false; rd_snc := false;
+              rd_fields := [ RLeaf (ex_l "a" None false false RInt None);
+                             RFlat false false [ RLeaf (ex_l "a" None false false RInt None) ] ] |}%string = false.
+Proof. repeat split; vm_compute; reflexivity. Qed.
+
 Print Assumptions C16_by_name_ser.
 Print Assumptions C16_roundtrip.
 Print Assumptions C16_excess_missing_ser_value.
@@ -255,3 +425,12 @@ Print Assumptions C16_ordered_deser_row.
 Print Assumptions C16_ordered_allow_missing_sound.
 Print Assumptions C16_roundtrip_ordered_value.
 Print Assumptions C16_roundtrip_ordered_row.
+Print Assumptions C16_ordered_am_ser_value.
+Print Assumptions C16_ordered_am_typeck_value.
+Print Assumptions C16_ordered_am_deser_value.
+Print Assumptions C16_snc_ser_value.
+Print Assumptions C16_snc_typeck_value.
+Print Assumptions C16_snc_deser_value.
+Print Assumptions C16_ordered_gen_ser_row.
+Print Assumptions C16_snc_typeck_row.
+Print Assumptions C16_snc_deser_row.
